@@ -151,4 +151,80 @@ theorem offset_precision_recall_f1_eq_model (ri ei : List Ival) (ratio minTol : 
           Mir.C04.GenGlue.f_measure_hits _ _ _ (length_ne_zero hr) (length_ne_zero he)]
         rfl
 
+/-! ### `match_notes` -/
+
+theorem pitch_matrix (rp ep : List Rat) (tol : Rat) (strict : Bool) :
+    PyTR.cmpScalar (if strict = true then PyTR.Cmp.less else PyTR.Cmp.lessEqual)
+        (PyTR.absM (PyTR.scaleM 1200 (PyTR.log2DiffOuter rp ep))) tol =
+      ⟨rp.length, ep.length, rp.map fun a => ep.map (pitchHit tol strict a)⟩ := by
+  simp only [PyTR.cmpScalar, PyTR.absM, PyTR.scaleM, PyTR.log2DiffOuter, PyM.Mat.map, List.map_map, Function.comp_def,
+    PyTR.cmp_apply, pitchHit, pitchDist]
+  congr 1
+  apply List.map_congr_left
+  intro a _
+  apply List.map_congr_left
+  intro b _
+  have : (1200 : Rat) * ((a - b) / 12) = 100 * (a - b) := by ring
+  rw [this]
+  rfl
+
+/-- the product of the onset and the pitch hit matrices over notes -/
+theorem onset_pitch_rows (ri ei : List Ival) (rp ep : List Rat) (ot pt : Rat) (strict : Bool) :
+    List.zipWith (List.zipWith (· && ·)) (ri.map fun r => ei.map (onsetHit ot strict r))
+        (rp.map fun a => ep.map (pitchHit pt strict a)) =
+      (ri.zip rp).map fun p => (ei.zip ep).map fun q => onsetHit ot strict p.1 q.1 && pitchHit pt strict p.2 q.2 := by
+  rw [PyTR.zipWith_map_map]
+  apply List.map_congr_left
+  intro p _
+  rw [PyTR.zipWith_map_map]
+
+theorem noteHit_none (ot pt mt : Rat) (strict : Bool) (p q : Note) :
+    noteHit ⟨ot, pt, none, mt, strict⟩ p q = (onsetHit ot strict p.1 q.1 && pitchHit pt strict p.2 q.2) := by
+  simp [noteHit]
+
+theorem noteHit_some (ot pt ρ mt : Rat) (strict : Bool) (p q : Note) :
+    noteHit ⟨ot, pt, some ρ, mt, strict⟩ p q =
+      (onsetHit ot strict p.1 q.1 && pitchHit pt strict p.2 q.2 && offsetHit ρ mt strict p.1 q.1) := rfl
+
+/-- multiplying in the offset hit matrix (rows indexed by the reference intervals alone) -/
+theorem with_offset_rows (ri ei : List Ival) (rp ep : List Rat) (ot pt ρ mt : Rat) (strict : Bool)
+    (hr : ri.length = rp.length) (he : ei.length = ep.length) :
+    List.zipWith (List.zipWith (· && ·))
+        ((ri.zip rp).map fun p => (ei.zip ep).map fun q => onsetHit ot strict p.1 q.1 && pitchHit pt strict p.2 q.2)
+        (ri.map fun r => ei.map (offsetHit ρ mt strict r)) =
+      (ri.zip rp).map fun p => (ei.zip ep).map (noteHit ⟨ot, pt, some ρ, mt, strict⟩ p) := by
+  rw [PyTR.zipWith_zip_fst _ _ _ ri rp hr]
+  apply List.map_congr_left
+  intro p _
+  rw [PyTR.zipWith_zip_fst _ _ _ ei ep he]
+  rfl
+
+/-- **`match_notes` as translated = the hand model** (`matchNotes`) for ALL notes with one pitch per interval on both
+    sides, every tolerance, `offset_ratio` a number or None, both comparison modes: onset, pitch (cents in the log domain)
+    and — unless `offset_ratio is None` — offset hit matrices multiplied, `np.where`, the dict, Hopcroft–Karp -/
+theorem match_notes_eq_model (ri : List Ival) (rp : List Rat) (ei : List Ival) (ep : List Rat) (ot pt : Rat)
+    (ratio : Option Rat) (mt : Rat) (strict : Bool) (hr : ri.length = rp.length) (he : ei.length = ep.length) :
+    Mir.Gen.transcription.match_notes ri rp ei ep ot pt ratio mt strict =
+      matchNotes ri rp ei ep ⟨ot, pt, ratio, mt, strict⟩ := by
+  unfold Mir.Gen.transcription.match_notes matchNotes durationsCheck
+  simp only [onset_matrix, pitch_matrix]
+  have hshape : ri.length = rp.length ∧ ei.length = ep.length := ⟨hr, he⟩
+  cases ratio with
+  | none =>
+    simp only [ok_bind, pure_bind, PyTR.mulB, hshape, and_self, if_true, PyTR.mulOpt, onset_pitch_rows, PyTR.whereM_zip,
+      Option.isSome_none, Bool.false_eq_true, if_false]
+    have hf : ∀ (p q : Note), (onsetHit ot strict p.1 q.1 && pitchHit pt strict p.2 q.2) =
+        noteHit ⟨ot, pt, none, mt, strict⟩ p q := fun p q => (noteHit_none ot pt mt strict p q).symm
+    simp only [PyTR.truePairs_outer, notes_loop_eq, ok_bind, foldl_graphStep, pyMatching_ok, hf]
+    rfl
+  | some ρ =>
+    simp only [Option.isSome_some, if_true, PyTR.intervals_to_durations]
+    cases hv : validateIntervals1 ri with
+    | error x => rfl
+    | ok u =>
+      simp only [ok_bind, pure_bind, offset_matrix ri ei ρ mt strict u hv, PyTR.mulB, hshape, and_self, if_true,
+        PyTR.mulOpt, onset_pitch_rows, with_offset_rows ri ei rp ep ot pt ρ mt strict hr he, PyTR.whereM_zip,
+        PyTR.truePairs_outer, notes_loop_eq, foldl_graphStep, pyMatching_ok]
+      rfl
+
 end Mir.C05.GenTr
